@@ -177,6 +177,48 @@ def diffuse(cl, rng, n, replay):
             return
 
 
+def mixed_steps(cl, rng, n, replay):
+    """recordings with different time steps (frequency-domain resampling): curve i is the ratio of recording i"""
+    import hvsrpy
+    pats = [(0, 1, 1, 0), (0, 1, 0, 0), (1, 0, 0, 1), (0, 1, 2), (2, 0, 1), (1, 0, 1, 1), (0, 0, 1), (1, 2, 0, 1)]
+    dts = [0.01, 0.02, 0.005]
+    kinds = ["traditional", "single_azimuth", "rotdpp", "azimuthal"]
+    fcs = np.array([1.5, 3.0, 6.0, 12.0, 20.0])
+    sm = dict(operator="konno_and_ohmachi", bandwidth=25., center_frequencies_in_hz=fcs)
+    for j in range(n):
+        pat = pats[j % len(pats)]
+        kind = kinds[(j // len(pats)) % len(kinds)]
+        raw = [rp.gen_window(rng, N=int(rng.integers(80, 200)), dt=dts[p], scale=1.0) for p in pat]
+        recs = [rp.mk_record(*r) for r in raw]
+        width = 0.1
+        if kind == "traditional":
+            s = hvsrpy.HvsrTraditionalProcessingSettings(smoothing=sm, method_to_combine_horizontals="squared_average")
+            ref = lambda r, n_: rp.curve_traditional(*r[:3], r[3], n_, "squared_average", width, "konno_and_ohmachi", 25., fcs)[0]
+        elif kind == "single_azimuth":
+            s = hvsrpy.HvsrTraditionalSingleAzimuthProcessingSettings(smoothing=sm, azimuth_in_degrees=40.)
+            ref = lambda r, n_: rp.curve_single_azimuth(*r[:3], r[3], n_, 40., width, "konno_and_ohmachi", 25., fcs)[0]
+        elif kind == "rotdpp":
+            azs = np.array([0., 50., 100., 150.])
+            s = hvsrpy.HvsrTraditionalRotDppProcessingSettings(smoothing=sm, azimuths_in_degrees=azs, ppth_percentile_for_rotdpp_computation=70.)
+            ref = lambda r, n_: rp.curve_rotdpp(*r[:3], r[3], n_, azs, 70., width, "konno_and_ohmachi", 25., fcs)[0]
+        else:
+            azs = np.array([10., 95.])
+            s = hvsrpy.HvsrAzimuthalProcessingSettings(smoothing=sm, azimuths_in_degrees=azs)
+            ref = lambda r, n_: np.concatenate([rp.curve_single_azimuth(*r[:3], r[3], n_, a, width, "konno_and_ohmachi", 25., fcs)[0] for a in azs])
+        h = hvsrpy.process(recs, s)
+        n_used = s.fft_settings["n"]
+        rows = np.concatenate([x.amplitude for x in h.hvsrs], axis=1) if kind == "azimuthal" else h.amplitude
+        cl.case((pat, kind, j))
+        if rows.shape[0] != len(raw):
+            cl.fail(f"hvsrpy.processing.process[{kind}]", "number of curves", signature=f"mixed:{kind}:count")
+            return
+        for i, r in enumerate(raw):
+            if not close(rows[i], ref(r, n_used), rtol=RTOL, atol=0):
+                cl.fail(f"hvsrpy.processing.process[{kind}]", f"time-step pattern {pat}: curve {i} is not the spectral ratio of recording {i}",
+                        signature=f"mixed:{kind}", pattern=pat, row=i)
+                return
+
+
 def fft_history(cl, rng, n, replay):
     """Zero padding, never truncation, also when a settings object is reused for longer windows."""
     import hvsrpy
@@ -238,6 +280,8 @@ CLAUSES = [
     ("bounded:process(rotdpp) == percentile of smoothed single-azimuth rows / smoothed vertical", "bounded", B, "hvsrpy.processing.traditional_rotdpp_hvsr_processing", (15, 400), rotdpp),
     ("bounded:process(azimuthal) == stack of single-azimuth results", "bounded", B, "hvsrpy.processing.azimuthal_hvsr_processing", (8, 200), azimuthal),
     ("bounded:process(diffuse field) == sqrt(S(Pns+Pew)/S(Pvt))", "bounded", B, "hvsrpy.processing.diffuse_field_hvsr_processing", (12, 300), diffuse),
+    ("bounded:mixed time steps: curve i == spectral ratio of recording i", "bounded", "8 time-step arrangements of 3-4 recordings (non-involutive groupings), 4 methods",
+     "hvsrpy.processing.process", (32, 320), mixed_steps),
     ("bounded:FFT length never below the window length across reuse of a settings object", "bounded", "pairs of window lengths 40-120 then 200-400", "hvsrpy.processing.prepare_fft_settings", (8, 100), fft_history),
     ("cross-check:scaling and closed-form consequences", "cross-check", "5 methods x 5 factors, proportional components", "hvsrpy.processing.traditional_hvsr_processing", (10, 200), scaling),
 ]
